@@ -812,6 +812,30 @@ def _collect_with_value_roles(facts, stmts, roles, depth):
     return collect_asserted(facts, stmts, roles, depth)
 
 
+def _private_builder(facts, b, lits):
+    """b is a private inherent function whose one Array literal stores two of its parameters, unchanged, as `dimensions` and `values`
+    -> (index of the dimensions parameter, index of the values parameter), else None"""
+    if b["kind"] not in ("Fn", "AssocFn") or b.get("reachable") or b.get("impl_trait_def") is not None or len(lits) != 1:
+        return None
+    lit = lits[0]
+    if lit.get("base") is not None:
+        return None
+    ps = [p for p in facts.params(b) if p.get("pat")]
+    pidx = {p["pat"]["v"]: i for i, p in enumerate(ps) if p["pat"].get("k") == "Binding"}
+    inits = {f["name"]: strip(f["e"]) for f in lit["fields"]}
+    d_, v_ = inits.get("dimensions"), inits.get("values")
+    if not (isinstance(d_, dict) and d_.get("k") == "VarRef" and d_["v"] in pidx and isinstance(v_, dict) and v_.get("k") == "VarRef" and v_["v"] in pidx):
+        return None
+    if assigned_vars(facts.root(b)) & {d_["v"], v_["v"]}:
+        return None
+    # the literal is the function's value
+    root = strip(facts.root(b))
+    tl = strip(root.get("e")) if isinstance(root, dict) and root.get("k") == "Block" and root.get("e") is not None else root
+    if tl is not lit:
+        return None
+    return pidx[d_["v"]], pidx[v_["v"]]
+
+
 def r16_ctor_funnel(facts):
     c = Ctx("R16", facts, "every Array is built through the asserting constructor")
     lit_bodies = {}
@@ -833,6 +857,7 @@ def r16_ctor_funnel(facts):
     c.floor("funnel constructor From<(Vec<usize>, Rc<Vec<Float>>)>", 1 if fb else 0, 1)
     c.floor("bodies containing an Array literal", len(lit_bodies), 2)
     allowed = {fb["def"] if fb else None, clone_def}
+    builders = {}
     shown_now = shown_fields(facts)
     for d in sorted(set(lit_bodies) | mir_bodies):
         b = facts.body(d)
@@ -843,6 +868,12 @@ def r16_ctor_funnel(facts):
             c.ok("literal:%s" % d, where, "struct-update literal `Array { .., ..base }` that takes dimensions and values unchanged from an existing array "
                  "(the representation invariant carries over)")
             continue
+        if d not in allowed and d in lit_bodies:
+            bparams = _private_builder(facts, b, lit_bodies[d])
+            if bparams is not None:
+                builders[d] = bparams
+                c.ok("literal:%s" % d, where, "Array literal in a private builder that stores its `dimensions` / `values` parameters as given: every call of it is checked for the assertions instead")
+                continue
         c.check(d in allowed, "literal:%s" % d, where,
                 "Array literal in an allowed body (%s)" % ("constructor funnel" if fb and d == fb["def"] else "Clone"),
                 "Array { .. } literal outside the asserting constructor and Clone: bypasses the dimension/length assertions")
@@ -897,6 +928,70 @@ def r16_ctor_funnel(facts):
     root = strip(facts.root(fb))
     stmts = root["stmts"] if root.get("k") == "Block" else []
     tail = strip(root.get("e")) if root.get("k") == "Block" else None
+    # every call of a private builder outside the funnel passes the same assertions on the way
+    for bd, (di, vi) in sorted(builders.items()):
+        for cb in facts.bodies:
+            for n_ in walk(facts.root(cb)):
+                if n_.get("k") != "Call" or resolved(n_) != bd:
+                    continue
+                if cb["def"] == clone_def or (fb is not None and cb["def"] == fb["def"]):
+                    continue
+                inst = "builder-call:%s" % cb["def"]
+                croot = strip(facts.root(cb))
+                cst = croot["stmts"] if isinstance(croot, dict) and croot.get("k") == "Block" else []
+                ctail = strip(croot.get("e")) if isinstance(croot, dict) and croot.get("k") == "Block" and croot.get("e") is not None else None
+                # the top-level statement the call belongs to (the tail, or the initialiser of a `let` / an expression statement)
+                at = None
+                if cb["kind"] in ("Fn", "AssocFn"):
+                    if ctail is n_:
+                        at = len(cst)
+                    else:
+                        for i_, st in enumerate(cst):
+                            e_ = strip(st.get("init") if st["s"] == "let" else st.get("e")) if (st.get("init") if st["s"] == "let" else st.get("e")) is not None else None
+                            if e_ is n_:
+                                at = i_
+                if at is None:
+                    c.unk(inst, loc(cb, n_), "the private Array builder is called from inside another expression: the assertions on the way are not read")
+                    continue
+                before = cst[:at]
+                has_refusals = any((y.get("k") == "If" and diverges(y["then"])) or (y.get("k") == "Call" and (y.get("callee") or {}).get("resolved_local"))
+                                   or (y.get("k") == "Match" and y.get("mac") in ("assert_eq", "assert_ne"))
+                                   for st in before for y in walk(st.get("init") if st["s"] == "let" else st.get("e")) if isinstance(y, dict))
+                dv_, vv_ = var_of(peel(n_["args"][di])), None
+                va = peel(n_["args"][vi])
+                while isinstance(va, dict) and va.get("k") == "Call" and callee(va) in ("alloc::rc::Rc::<T>::new", "core::convert::Into::into", "core::convert::From::from") and va["args"]:
+                    va = peel(va["args"][0])
+                vv_ = var_of(va) if isinstance(va, dict) and va.get("k") in ("VarRef", "UpvarRef") else None
+                count_by_construction = False
+                if dv_ and not vv_ and isinstance(va, dict) and va.get("k") == "Call" and callee(va) == "alloc::vec::from_elem" and len(va["args"]) == 2:
+                    # `vec![x; n]` with n the product of the same dimensions: the element count holds by construction
+                    ln = peel(va["args"][1])
+                    lets_ = {st["pat"]["v"]: st["init"] for st in before if st["s"] == "let" and st["pat"].get("k") == "Binding" and st.get("init") is not None}
+                    if isinstance(ln, dict) and ln.get("k") == "VarRef" and ln["v"] in lets_:
+                        ln = peel(lets_[ln["v"]])
+                    if isinstance(ln, dict) and ln.get("k") == "Call" and (callee(ln) or "").endswith("::product") and any(
+                            y.get("k") in ("VarRef", "UpvarRef") and y["v"] == dv_ for y in walk(ln)):
+                        count_by_construction = True
+                BAD_ = "the private Array builder is called without the dimension / element-count assertions: an array with a zero dimension or a wrong element count can be built"
+                if not dv_ or (not vv_ and not count_by_construction):
+                    if has_refusals:
+                        c.unk(inst, loc(cb, n_), "the builder's dimensions / values arguments are not plain variables; the refusals before the call are not read")
+                    else:
+                        c.bad(inst, loc(cb, n_), BAD_ + " (nothing before the call refuses anything)")
+                    continue
+                g2, _n2 = collect_asserted(facts, before, {dv_: "dims", vv_: "vals"} if vv_ else {dv_: "dims"})
+                if count_by_construction:
+                    g2.setdefault("count", va)
+                if g2.get("positive") is not None and g2.get("count") is not None:
+                    c.ok(inst, loc(cb, n_), "the call is preceded by the assertions `every dimension >= 1` and `product(dimensions) == values.len()` on its arguments")
+                elif any(y.get("k") == "Call" and (y.get("callee") or {}).get("resolved_local") and not (resolved(y) or "").startswith("<corgi::array::Array as core::convert::From<")
+                         for st in before for y in walk(st.get("init") if st["s"] == "let" else st.get("e")) if isinstance(y, dict)):
+                    c.unk(inst, loc(cb, n_), "the call of the private Array builder is preceded by refusals / helper calls in a form this rule does not read")
+                else:
+                    c.bad(inst, loc(cb, n_), BAD_)
+    if isinstance(tail, dict) and tail.get("k") == "Call" and resolved(tail) in builders:
+        di, vi = builders[resolved(tail)]
+        tail = {"k": "Adt", "adt": ARRAY, "fields": [{"name": "dimensions", "e": tail["args"][di]}, {"name": "values", "e": tail["args"][vi]}], "sp": tail.get("sp")}
     if not (isinstance(tail, dict) and tail.get("k") == "Adt" and tail["adt"] == ARRAY):
         c.unk("funnel:shape", loc(fb, root), "the constructor's tail expression is not the Array literal")
         return c
@@ -974,7 +1069,9 @@ def r16_ctor_funnel(facts):
             # the comparison may sit in a closure (`split_first().is_none_or(|(first, rest)| rest.iter().all(..))`) feeding a Boolean that is asserted
             from .config_rules import _panics as _pn3
             cmp_in_closure = False
-            for nb in facts.nested(nested):
+            helper_bodies = [nb2 for x in callees_closure(facts, nested, depth=2) if x is not nested and x.get("impl_trait_def") is None and x is not fb
+                             for nb2 in facts.nested(x)]
+            for nb in facts.nested(nested) + helper_bodies:
                 for y in walk(facts.root(nb)):
                     sides = None
                     if y.get("k") == "Binary" and y.get("op") == "Eq":
@@ -1260,6 +1357,13 @@ class EqEval:
                             names.add((callee(x) or "").rsplit("::", 1)[-1])
                 if names & set(LOSSY):
                     return True if self.asg[f] else self.freevar(e)
+                if "zip" in names and not cal.endswith("::eq"):
+                    # zip stops at the shorter side: a comparison of the common prefix.  The dimension vectors of two arrays may differ in
+                    # length; the value buffers have equal lengths whenever the dimensions are equal
+                    if f == "dimensions":
+                        return True if self.asg[f] else self.freevar(e)
+                    if f == "values" and not self.asg["dimensions"]:
+                        return True if self.asg[f] else self.freevar(e)
                 if names & set(OPAQUE) and cal.endswith("::eq"):
                     raise _EqUnknown("element-wise comparison through %s" % sorted(names & set(OPAQUE)))
                 return self.asg[f]
@@ -1302,6 +1406,8 @@ class EqEval:
                         env2[p["pat"]["v"]] = env[v]
                     elif isinstance(self.ev_safe(a, env), bool):
                         env2[p["pat"]["v"]] = self.ev_safe(a, env)
+                    elif self.fields_of(a, env):
+                        env2[p["pat"]["v"]] = ("derived", self.fields_of(a, env))
             try:
                 return self.ev(self.facts.root(cb), env2)
             except _EqReturn as r:
@@ -1487,7 +1593,7 @@ def r17_eq_fields(facts):
         rows, why = eq_truth_table(facts, b)
         negated = b["name"].endswith("ne")
         if rows is None:
-            c.ok(inst + "#shape", where, "Boolean structure not analysed (%s); only the field set is decided for this function" % why, nontrivial=False)
+            c.unk(inst + "#shape", where, "the Boolean structure of the comparison is not read (%s); only the field set is decided for this function" % why)
             continue
         bad = [(d, v, fr, r) for d, v, fr, r in rows if r != ((d and v) != negated)]
         if bad:
@@ -1630,9 +1736,12 @@ def r20_ownership_edges(facts):
             "Array is Copy")
 
     # (e) model / layer / optimizer fields
+    part_of_array = set()
+    for f in facts.adt_fields(ARRAY):
+        part_of_array |= set((f.get("walk_full") or {}).get("local_adts") or [])
     for d, adt in facts.adts.items():
-        if d == ARRAY:
-            continue
+        if d == ARRAY or d in part_of_array:
+            continue        # the array itself and the types its own fields are made of (engine slots wrapped in a newtype)
         for f in facts.adt_fields(d):
             ws = f["walk_stop_local"]
             if ARRAY in ws["local_adts"]:
@@ -1640,6 +1749,11 @@ def r20_ownership_edges(facts):
                 c.check(not ws["collections"], "retained:%s.%s" % (d, f["name"]), where,
                         "single array slot (%s)" % f["ty"],
                         "%s.%s can retain an unbounded collection of arrays (%s)" % (d, f["name"], f["ty"]))
+                # a slot that can be filled through a shared reference (a layer's forward, an optimizer's update take `&self`) keeps what it was
+                # given - a result and the graph below it - alive after the caller has dropped every handle
+                if ws.get("cells"):
+                    c.bad("retained-cell:%s.%s" % (d, f["name"]), where, "%s.%s is an interior-mutable slot that can hold an array (%s): code that only has `&self` can park a result there, "
+                          "which keeps the graph below it alive after every handle the program holds has been dropped" % (d, f["name"], f["ty"]))
     # (f) no static / thread-local can hold arrays (it would outlive every handle)
     n_static = 0
     for it in facts.items:
